@@ -404,12 +404,15 @@ func genAV1Rt(x *Ctx) {
 		})
 	}
 	// big MTUs and several-MTU sizes
-	for i, n := 0, x.N(60, 3000); i < n; i++ {
+	for i, n := 0, x.N(32, 3000); i < n; i++ {
 		x.Case(func(c *Case) {
 			mtu := c.R.Pick(1200, 1500, 16385, 65535)
 			lim := 3 * mtu
 			if lim > 140000 {
 				lim = 140000
+			}
+			if !x.Thorough() && lim > 80000 {
+				lim = 80000
 			}
 			os := av1RandObus(c.R, mtu, 4, lim, false)
 			c.Tag("big-mtu")
